@@ -161,7 +161,7 @@ RULE = 'Jobs case-split (key form, key domain, ragged, buffersize, reverse, cach
 def jobs(tier):
     N = 3 if tier == 'quick' else 4
     out = []
-    doms = {'single': ['I', 'O', 'M'], 'compound': ['Od2', 'O'], 'none': ['I', 'O']}
+    doms = {'single': ['I', 'O', 'M', 'X'], 'compound': ['Od2', 'O'], 'none': ['I', 'O']}
     for keyform in ('single', 'compound', 'none'):
         for dom in doms[keyform]:
             for ragged in ((False, True) if keyform != 'none' else (False,)):
@@ -172,12 +172,12 @@ def jobs(tier):
                         continue
                     for reverse in (False, True):
                         for cache in (True, False):
-                            if not cache and dom in ('M',):
+                            if (not cache and dom in ('M', 'X')) or (dom == 'X' and bs not in (None, 1, 2)):
                                 continue
                             budget = 90
                             if tier == 'thorough':
                                 budget = 900
-                            Nj = N
+                            Nj = N if dom != 'X' else (3 if bs is None else 2)
                             if keyform == 'compound':
                                 Nj = N - 1        # two symbolic cells per row
                             out.append(dict(
